@@ -429,6 +429,37 @@ def run_driver(exe, args, lines, timeout=600, per_case_restart=True):
     return outs, crashes, leak_reports
 
 
+def compare_outputs(G, cases, couts, mouts, crashes):
+    """The comparison rule of the correspondence.  Returns (bad [(index, kind, detail)], out_of_fuel, protocol_errors)."""
+    bad, fuel, model_err = [], 0, 0
+    cmpf = getattr(G, "compare", None)
+    for i, (c, co, mo) in enumerate(zip(cases, couts, mouts)):
+        if co is None:
+            cr = [x for x in crashes if x[0] == i]
+            bad.append((i, "crash", cr[0][1] if cr else "driver died"))
+            continue
+        if mo is None:
+            model_err += 1
+            continue
+        if mo.startswith("FUEL") or mo.startswith("MODEL-ERROR"):
+            fuel += 1
+            continue
+        if mo.startswith("UNKNOWN") or co.startswith("UNKNOWN"):
+            model_err += 1
+            continue
+        if mo.startswith("SKIP"):
+            continue
+        if cmpf:
+            ok = cmpf(c, co, mo)
+        elif mo.startswith("CHECK"):
+            ok = mo.startswith("CHECK ok")
+        else:
+            ok = (co == mo)
+        if not ok:
+            bad.append((i, "mismatch", None))
+    return bad, fuel, model_err
+
+
 # --------------------------------------------------------------------------- findings
 
 def load_findings():
